@@ -39,6 +39,8 @@
 #include <string.h>
 #include <stdarg.h>
 #include <unistd.h>
+#include <sys/types.h>
+#include <sys/wait.h>
 
 #include <layer1/tdma_sched.h>
 #include <layer1/sync.h>
@@ -52,6 +54,7 @@ struct l1s_state l1s;          /* the firmware's L1 state; tdma_sched.c works on
 /* bookkeeping of the explorer itself (not the code under test) is exempt from instrumentation: speed */
 #define NOSAN __attribute__((no_sanitize("address", "undefined")))
 static FILE *res;
+static int in_child;            /* verifier child: collect keys, print nothing */
 static const int16_t PRIOS[8] = { -32768, -257, -1, 0, 1, 255, 256, 32767 };
 
 /* ------------------------------------------------------------------ observation log */
@@ -105,33 +108,144 @@ NOSAN static int intern(uint8_t cb, uint8_t p1, uint8_t p2, uint16_t p3, int16_t
 		if (types[i].cb == cb && types[i].p1 == p1 && types[i].p2 == p2 && types[i].p3 == p3
 		    && types[i].prio == prio && types[i].flags == flags)
 			return i;
-	if (ntypes >= 127) { fprintf(res, "{\"harness_error\": \"type table full\"}\n"); fflush(res); exit(3); }
+	if (ntypes >= 127) { if (in_child) _exit(3); fprintf(res, "{\"harness_error\": \"type table full\"}\n"); fflush(res); exit(3); }
 	types[ntypes].cb = cb; types[ntypes].p1 = p1; types[ntypes].p2 = p2; types[ntypes].p3 = p3;
 	types[ntypes].prio = prio; types[ntypes].flags = flags;
 	return ntypes++;
 }
 
 /* ------------------------------------------------------------------ violations */
+/* A violation is only reported (V line) with a trace that reproduces it when executed alone in a process
+ * that never ran any other code under test ("pristine"): the exploration runs millions of traces in one
+ * process and restores l1s.tdma_sched between them, but state that the code under test keeps elsewhere
+ * (file-scope statics) survives, so what a trace shows inside the exploration may be residue of other
+ * traces.  A pristine verifier process is forked before anything runs; per request it forks a child that
+ * executes one case and answers with the violation keys and a digest of the final state.  Keys seen in the
+ * exploration for which no candidate trace reproduces alone are reported as HD lines (history dependent). */
 #define MAXV 40
-static char vkeys[MAXV][96];
-static int nvk;
-static unsigned long nviol;
+#define MAXATT 400              /* candidate traces re-run alone per key */
+struct vrec { char key[96]; int confirmed, attempts; unsigned long count, next_try; char msg[400]; char ex[600]; };
+static struct vrec vr[MAXV];
+static int nvr;
+static unsigned long nviol, n_verify;
 static int violated;           /* set by viol(): the transition being executed is bad */
 static const char *(*trace_fn)(void);   /* yields the replay token of the current case */
+static int verify_enabled, verify_k;
+static char child_keys[2400];
+static int vrq = -1; static FILE *vrs;
+
+static void run_case_token(const char *tok, int k);
+static uint64_t state_digest(void);
+
+static void verifier_start(void)
+{
+	int rq[2], rs[2];
+	pid_t srv;
+	if (pipe(rq) || pipe(rs)) exit(3);
+	srv = fork();
+	if (srv < 0) exit(3);
+	if (srv == 0) {
+		static char line[16384];
+		FILE *in;
+		close(rq[1]); close(rs[0]);
+		in = fdopen(rq[0], "r");
+		while (in && fgets(line, sizeof(line), in)) {
+			char *tok = strchr(line, ' ');
+			int st = 0;
+			pid_t c;
+			line[strcspn(line, "\n")] = 0;
+			if (!tok) continue;
+			*tok++ = 0;
+			c = fork();
+			if (c == 0) {
+				static char out[2600];
+				in_child = 1; child_keys[0] = 0;
+				run_case_token(tok, atoi(line));
+				snprintf(out, sizeof(out), "R %016llx %s\n", (unsigned long long)state_digest(), child_keys);
+				if (write(rs[1], out, strlen(out)) < 0) _exit(1);
+				_exit(0);
+			}
+			if (c < 0 || waitpid(c, &st, 0) < 0 || !(WIFEXITED(st) && WEXITSTATUS(st) == 0))
+				if (write(rs[1], "DIED\n", 5) < 0) _exit(1);
+		}
+		_exit(0);
+	}
+	close(rq[0]); close(rs[1]);
+	vrq = rq[1]; vrs = fdopen(rs[0], "r");
+}
+
+/* executes `tok` alone in a pristine process.  returns 1 if `key` shows up there (or the case kills the
+ * process); *digest / *nkeys describe what the pristine run ended with */
+static int verify_case(const char *tok, int k, const char *key, uint64_t *digest, int *nkeys)
+{
+	static char line[4096], pat[128];
+	if (dprintf(vrq, "%d %s\n", k, tok) < 0 || !fgets(line, sizeof(line), vrs)) {
+		fprintf(res, "{\"harness_error\": \"verifier process lost\"}\n"); fflush(res); exit(3);
+	}
+	n_verify++;
+	if (!strncmp(line, "DIED", 4)) { if (digest) *digest = 0; if (nkeys) *nkeys = -1; return 1; }
+	if (digest) *digest = strtoull(line + 2, NULL, 16);
+	if (nkeys) { int n = 0; const char *q; for (q = line + 18; *q; q++) n += *q == ';'; *nkeys = n; }
+	snprintf(pat, sizeof(pat), " %s;", key);
+	return strstr(line + 18, pat) != NULL;
+}
+
+static struct vrec *vrec_for(const char *key)
+{
+	int i;
+	for (i = 0; i < nvr; i++) if (!strcmp(vr[i].key, key)) return &vr[i];
+	if (nvr >= MAXV) return NULL;
+	memset(&vr[nvr], 0, sizeof(vr[0]));
+	snprintf(vr[nvr].key, sizeof(vr[0].key), "%s", key);
+	return &vr[nvr++];
+}
 
 static void viol(const char *key, const char *fmt, ...)
 {
 	char msg[600];
 	va_list ap;
-	int i;
+	struct vrec *r;
+	const char *trace;
 	violated = 1;
+	if (in_child) {
+		char pat[128];
+		snprintf(pat, sizeof(pat), " %s;", key);
+		if (!strstr(child_keys, pat) && strlen(child_keys) + strlen(pat) < sizeof(child_keys)) strcat(child_keys, pat);
+		return;
+	}
 	nviol++;
-	for (i = 0; i < nvk; i++) if (!strcmp(vkeys[i], key)) return;
-	if (nvk >= MAXV) return;
-	snprintf(vkeys[nvk++], sizeof(vkeys[0]), "%s", key);
+	if (!(r = vrec_for(key))) return;
+	r->count++;
+	if (r->confirmed || r->attempts >= MAXATT) return;
+	/* candidates: the first 150 occurrences, then a geometrically thinning sample, so that long traces
+	 * (which carry their own history) get their turn as well */
+	if (r->count > 150 && r->count < r->next_try) return;
+	r->next_try = r->count + r->count / 16 + 1;
+	trace = trace_fn ? trace_fn() : "-";
 	va_start(ap, fmt); vsnprintf(msg, sizeof(msg), fmt, ap); va_end(ap);
-	fprintf(res, "V %s | %s | %s\n", key, msg, trace_fn ? trace_fn() : "-");
+	r->attempts++;
+	if (!verify_enabled || verify_case(trace, verify_k, key, NULL, NULL)) {
+		r->confirmed = 1;
+		fprintf(res, "V %s | %s | %s\n", key, msg, trace);
+		fflush(res);
+	} else if (r->attempts == 1) {
+		snprintf(r->msg, sizeof(r->msg), "%s", msg);
+		snprintf(r->ex, sizeof(r->ex), "%s", trace);
+	}
+}
+
+/* keys that were seen but have no trace that reproduces them alone */
+static int report_unconfirmed(void)
+{
+	int i, n = 0;
+	for (i = 0; i < nvr; i++)
+		if (!vr[i].confirmed) {
+			fprintf(res, "HD %s | %s | %s | %lu occurrence(s) in this run; %d of their traces were re-run alone in a fresh process, none shows it there\n",
+				vr[i].key, vr[i].msg, vr[i].ex, vr[i].count, vr[i].attempts);
+			n++;
+		}
 	fflush(res);
+	return n;
 }
 
 /* ------------------------------------------------------------------ reference model */
@@ -142,7 +256,7 @@ static int nref;
 
 static void ref_add(long due, int type)
 {
-	if (nref >= RMAX) { fprintf(res, "{\"harness_error\": \"ref full\"}\n"); fflush(res); exit(3); }
+	if (nref >= RMAX) { if (in_child) _exit(3); fprintf(res, "{\"harness_error\": \"ref full\"}\n"); fflush(res); exit(3); }
 	ref[nref].due = due; ref[nref].type = type; ref[nref].opt = 0; ref[nref].pre = 0; nref++;
 }
 static void ref_del(int i) { ref[i] = ref[--nref]; }
@@ -536,6 +650,7 @@ static int parse_list(const char *s, int *out, int max, int all_n)
 static void on_abort(int sig)
 {
 	(void)sig;
+	if (in_child) _exit(96);
 	fprintf(res, "CRASH | %s\n", trace_fn ? trace_fn() : "-");
 	fflush(res);
 	_exit(96);
@@ -558,6 +673,7 @@ NOSAN static int do_bfs(int argc, char **argv)
 	}
 	if (K < 1 || K > 12) return 2;
 	MAXREAL = K + 4;
+	verify_k = K;
 	RECSZ = REC_HDR + 2 * MAXREAL + 2 * (K + 1);
 	alpha = calloc(noff * (nprio + nr + nset) + 3, sizeof(*alpha));
 	for (i = 0; i < noff; i++) {
@@ -634,52 +750,108 @@ NOSAN static int do_bfs(int argc, char **argv)
 			src = states + (size_t)RECSZ * head;
 		}
 	}
+	/* explored traces, re-run alone in a pristine process, must end in the state the search recorded and
+	 * show no violation: anything else means the result of a trace depends on what ran before it in the
+	 * same process (state outside l1s.tdma_sched) */
+	unsigned long nsampled = 0, nsample_bad = 0;
+	{
+		uint32_t step = nstates / 256 + 1, sidx;
+		struct vrec *r = NULL;
+		for (sidx = nstates - 1; sidx > 0 && sidx < nstates; sidx = sidx > step ? sidx - step : 0) {
+			uint64_t want, got; int nk;
+			restore(states + (size_t)RECSZ * sidx);
+			want = state_digest();
+			cur_state = sidx; cur_ev = -1;
+			verify_case(bfs_trace(), K, "-", &got, &nk);
+			nsampled++;
+			if (nk != 0 || got != want) {
+				nsample_bad++; nviol++;
+				if (!r && (r = vrec_for("sampled-trace"))) {
+					snprintf(r->msg, sizeof(r->msg), "an explored trace, run alone, %s", nk < 0 ? "kills the process" : nk ? "shows a violation" : "ends in a different scheduler state");
+					snprintf(r->ex, sizeof(r->ex), "%s", bfs_trace());
+				}
+				if (r) { r->count++; r->attempts++; }
+			}
+		}
+	}
+	int hd = report_unconfirmed();
 	int minpos = -1, npos = 0;
 	for (i = 0; i < NB; i++) { if (per_pos[i]) npos++; if (minpos < 0 || per_pos[i] < (unsigned long)minpos) minpos = per_pos[i]; }
 	fprintf(res, "{\"states\": %u, \"transitions\": %lu, \"bad_transitions\": %lu, \"depth\": %d, \"frontier_exhausted\": %s, "
 		"\"alphabet\": %d, \"K\": %d, \"max_outstanding\": %d, \"ring_positions\": %d, \"min_states_per_position\": %d, "
 		"\"execute_calls\": %lu, \"items_due_at_execute\": %lu, \"schedule_calls\": %lu, \"set_calls\": %lu, \"resets\": %lu, "
-		"\"revisits\": %lu, \"item_types\": %d, \"set_calls_nonfirst_frame_on_slot24\": %lu, \"set_calls_wrapping_ring\": %lu, %s, \"violations\": %lu}\n",
+		"\"revisits\": %lu, \"item_types\": %d, \"set_calls_nonfirst_frame_on_slot24\": %lu, \"set_calls_wrapping_ring\": %lu, "
+		"\"sampled_traces_rerun_alone\": %lu, \"sampled_traces_differing\": %lu, \"history_dependent_keys\": %d, \"verify_requests\": %lu, %s, \"violations\": %lu}\n",
 		nstates, ntrans, nbad, maxdepth, hitcap ? "false" : "true", nalpha, K, max_out, npos, minpos,
-		nexec_calls, nitems_run, nsched_ok, nsets_ok, nreset, ndup, ntypes, n_set_nonfirst_slot24, n_set_wrapping, hist_json(), nviol);
+		nexec_calls, nitems_run, nsched_ok, nsets_ok, nreset, ndup, ntypes, n_set_nonfirst_slot24, n_set_wrapping, nsampled, nsample_bad, hd, n_verify, hist_json(), nviol);
 	fflush(res);
 	return nviol ? 1 : 0;
 }
 
-/* ------------------------------------------------------------------ replay of one token list */
-static const char *replay_str;
-static const char *replay_trace(void) { return replay_str; }
-static int do_replay(const char *s, int k)
+/* ------------------------------------------------------------------ one event sequence from the boot state */
+static char casebuf[600];
+static const char *case_trace(void) { return casebuf; }
+
+/* dead-slot discipline as in the search: refill storage beyond num_items */
+static void scrub(void)
+{
+	int b, sl;
+	for (b = 0; b < NB; b++)
+		for (sl = SCHED.bucket[b].num_items <= NCB ? SCHED.bucket[b].num_items : NCB; sl < NCB; sl++)
+			SCHED.bucket[b].item[sl] = tmpl.bucket[b].item[sl];
+}
+
+/* digest of the live scheduler content and the reference, independent of item-type numbering */
+static uint64_t state_digest(void)
+{
+	uint64_t h = 1469598103934665603ull, sum = 0;
+	int b, sl, i;
+#define DG(x) do { h ^= (uint64_t)(x); h *= 1099511628211ull; } while (0)
+	DG(SCHED.cur_bucket);
+	for (b = 0; b < NB; b++) {
+		int n = SCHED.bucket[b].num_items <= NCB ? SCHED.bucket[b].num_items : NCB;
+		DG(SCHED.bucket[b].num_items);
+		for (sl = 0; sl < n; sl++) {
+			struct tdma_sched_item *it = &SCHED.bucket[b].item[sl];
+			DG(cbid(it->cb)); DG(it->p1); DG(it->p2); DG(it->p3); DG((uint16_t)it->prio); DG(it->flags);
+		}
+	}
+	for (i = 0; i < nref; i++) {
+		struct itype *t = &types[ref[i].type];
+		uint64_t x = 0x9E3779B97F4A7C15ull * (uint64_t)(ref[i].due - now + 1);
+		x ^= ((uint64_t)t->cb << 56) ^ ((uint64_t)t->p1 << 48) ^ ((uint64_t)t->p2 << 40) ^ ((uint64_t)t->p3 << 24) ^ ((uint64_t)(uint16_t)t->prio << 8) ^ (t->flags << 1) ^ ref[i].opt;
+		x *= 0xD6E8FEB86659FD93ull; x ^= x >> 32;
+		sum += x;
+	}
+	DG(sum); DG(nref);
+#undef DG
+	return h;
+}
+
+/* returns the number of events executed, -1 for a malformed list */
+static int replay_events(const char *s, int k)
 {
 	char *dup = strdup(s), *tok;
 	struct event e;
 	int n = 0;
-	replay_str = s; trace_fn = replay_trace;
-	K = 200; MAXREAL = k > 0 ? k + 4 : 200;   /* k: the bound of the search that produced the case */
+	snprintf(casebuf, sizeof(casebuf), "%s", s); trace_fn = case_trace;
+	K = 250; MAXREAL = k > 0 ? k + 4 : 250;   /* k: the bound of the search that produced the case */
 	memcpy(&SCHED, &tmpl, sizeof(tmpl));   /* live content as after boot: nothing scheduled, position 0 */
-	now = 1000; nref = 0;
+	now = 1000; nref = 0; nlog = 0; log_lost = 0;
 	for (tok = strtok(dup, ","); tok; tok = strtok(NULL, ",")) {
-		if (!ev_parse(tok, &e)) { fprintf(res, "{\"harness_error\": \"bad token %s\"}\n", tok); return 3; }
-		if (!ev_enabled(&e)) { fprintf(res, "{\"harness_error\": \"event %s outside the property's domain\"}\n", tok); return 3; }
+		if (!ev_parse(tok, &e) || !ev_enabled(&e)) { free(dup); return -1; }
 		violated = 0;
 		ev_apply(&e);
 		n++;
 		if (!violated) scan_real();
 		if (violated) break;       /* as in the search: a violating transition is not continued */
-		/* dead-slot discipline as in the search: refill storage beyond num_items */
-		int b, sl;
-		for (b = 0; b < NB; b++)
-			for (sl = SCHED.bucket[b].num_items; sl < NCB; sl++)
-				SCHED.bucket[b].item[sl] = tmpl.bucket[b].item[sl];
+		scrub();
 	}
-	fprintf(res, "{\"events\": %d, \"violations\": %lu}\n", n, nviol);
-	return nviol ? 1 : 0;
+	free(dup);
+	return n;
 }
 
 /* ------------------------------------------------------------------ capacity sweep */
-static char casebuf[400];
-static const char *case_trace(void) { return casebuf; }
-
 static void goto_position(int pos)
 {
 	int i;
@@ -689,16 +861,16 @@ static void goto_position(int pos)
 }
 
 /* run 25 frame steps: everything in the reference must come out in its frame, nothing else */
-static void drain(void) { int i; for (i = 0; i < NB; i++) { ev_exec(); ev_advance(); } }
+static void drain(void) { int i; for (i = 0; i < NB; i++) { ev_exec(); ev_advance(); scrub(); } }
 
-static int do_capacity(int lo, int hi)
+static unsigned long cap_refused, cap_filled;
+static void capacity_case(int pos, int off, int var)
 {
-	unsigned long ncases = 0, nrefused = 0, nfilled = 0;
-	int pos, off, var, i;
+	int i;
 	struct tdma_scheduler before;
 	trace_fn = case_trace;
 	K = 250; MAXREAL = 250;
-	for (pos = lo; pos < hi; pos++) for (off = 0; off < NB; off++) for (var = 0; var < 4; var++) {
+	{
 		snprintf(casebuf, sizeof(casebuf), "capacity:%d:%d:%d", pos, off, var);
 		violated = 0;
 		goto_position(pos);
@@ -710,7 +882,7 @@ static int do_capacity(int lo, int hi)
 		if (var == 0 || var == 3) for (i = 0; i < NCB; i++) ev_schedule(off, (i * 3 + off) % 8);
 		else if (var == 1) for (i = 0; i < NCB; i++) ev_set(off, 0);
 		else { ev_set(off, 1); ev_set(off, 1); ev_schedule(off, 7); ev_schedule(off, 0); }
-		nfilled += NCB;
+		cap_filled += NCB;
 		if (SCHED.bucket[(pos + off) % NB].num_items != NCB)
 			viol("C08:capacity", "frame at offset %d holds %u items after 8 successful schedule calls", off, SCHED.bucket[(pos + off) % NB].num_items);
 		/* 9th item: must be refused, nothing may change */
@@ -727,7 +899,7 @@ static int do_capacity(int lo, int hi)
 		else if (rc != -1) viol("C08:retval:schedule_set", "tdma_schedule_set into a full frame returned %d, expected -1", rc);
 		if (memcmp(&before, &SCHED, sizeof(before))) viol("C08:overflow-changed-state", "refused tdma_schedule_set at position %d offset %d modified the scheduler", pos, off);
 		memcpy(&SCHED, &before, sizeof(before));
-		nrefused += 2;
+		cap_refused += 2;
 		/* a multi-frame set whose *second* frame is the full one: error must be reported and no
 		 * existing item may be damaged; whether the set's own first-frame items stay is left open */
 		if (off >= 1 && var != 3) {
@@ -738,27 +910,35 @@ static int do_capacity(int lo, int hi)
 					ref_add(now + off - 1, intern(shapes[2].d[i].cb, shapes[2].d[i].p1, shapes[2].d[i].p2, shapes[2].p3, shapes[2].d[i].prio, shapes[2].d[i].flags));
 					ref[nref - 1].opt = 1;
 				}
-			nrefused++;
+			cap_refused++;
 		}
 		drain();
 		if (nref) viol("C08:not-executed", "%d item(s) never ran within 25 frames", nref);
 		/* and the ring must be empty now: a second round runs nothing */
 		drain();
-		ncases++;
 	}
-	fprintf(res, "{\"capacity_cases\": %lu, \"refusals_checked\": %lu, \"items_filled\": %lu, %s, \"violations\": %lu}\n", ncases, nrefused, nfilled, hist_json(), nviol);
+}
+
+static int report_unconfirmed(void);
+static int do_capacity(int lo, int hi)
+{
+	unsigned long ncases = 0;
+	int pos, off, var, hd;
+	for (pos = lo; pos < hi; pos++) for (off = 0; off < NB; off++) for (var = 0; var < 4; var++) { capacity_case(pos, off, var); ncases++; }
+	hd = report_unconfirmed();
+	fprintf(res, "{\"capacity_cases\": %lu, \"refusals_checked\": %lu, \"items_filled\": %lu, \"history_dependent_keys\": %d, \"verify_requests\": %lu, %s, \"violations\": %lu}\n",
+		ncases, cap_refused, cap_filled, hd, n_verify, hist_json(), nviol);
 	return nviol ? 1 : 0;
 }
 
 /* ------------------------------------------------------------------ execution-order sweep */
-static int do_order(int n, unsigned long lo, unsigned long hi)
+static void order_case(int n, unsigned long c)
 {
-	unsigned long c, ncases = 0, distinct_orders = 0;
 	int i, var;
 	trace_fn = case_trace;
 	K = 250; MAXREAL = 250;
 	struct tdma_sched_item arr[NCB + 1];
-	for (c = lo; c < hi; c++) for (var = 0; var < 2; var++) {
+	for (var = 0; var < 2; var++) {
 		int rank[NCB]; unsigned long x = c;
 		int pos = c % NB, off = (c / NB) % NB;
 		snprintf(casebuf, sizeof(casebuf), "order:%d:%lu", n, c);
@@ -791,13 +971,22 @@ static int do_order(int n, unsigned long lo, unsigned long hi)
 		ev_exec();        /* judges order, multiset, parameters */
 		if (nref) viol("C08:not-executed", "%d of %d items did not run", nref, n);
 		ev_advance();
-		ncases++;
 		ntypes = 0;       /* types are per case here */
-		(void)distinct_orders;
 	}
-	fprintf(res, "{\"order_cases\": %lu, \"n\": %d, %s, \"violations\": %lu}\n", ncases, n, hist_json(), nviol);
+}
+
+static int do_order(int n, unsigned long lo, unsigned long hi)
+{
+	unsigned long c, ncases = 0;
+	int hd;
+	for (c = lo; c < hi; c++) { order_case(n, c); ncases += 2; }
+	hd = report_unconfirmed();
+	fprintf(res, "{\"order_cases\": %lu, \"n\": %d, \"history_dependent_keys\": %d, \"verify_requests\": %lu, %s, \"violations\": %lu}\n",
+		ncases, n, hd, n_verify, hist_json(), nviol);
 	return nviol ? 1 : 0;
 }
+
+
 
 /* ------------------------------------------------------------------ set sweep */
 /* every ring position x every offset x every set shape (1..6 frames) on an otherwise empty scheduler,
@@ -815,17 +1004,30 @@ static int do_setsweep(int lo, int hi)
 		violated = 0;
 		memcpy(&SCHED, &tmpl, sizeof(tmpl));
 		now = 1000; nref = 0; nlog = 0; log_lost = 0;
-		for (i = 0; i < pos; i++) { ev_exec(); ev_advance(); p += sprintf(p, "t,"); }
+		for (i = 0; i < pos; i++) { ev_exec(); ev_advance(); scrub(); p += sprintf(p, "t,"); }
 		if (var) for (i = 0; i < NB; i += 4) { ev_schedule(i, (i + pos) % 8); p += sprintf(p, "s%d.%d,", i, (i + pos) % 8); }
 		p += sprintf(p, "S%d.%d", off, sh);
 		ev_set(off, sh);
-		for (i = 0; i < 30 && !violated; i++) { p += sprintf(p, ",t"); ev_exec(); ev_advance(); }
+		scrub();
+		for (i = 0; i < 30 && !violated; i++) { p += sprintf(p, ",t"); ev_exec(); ev_advance(); scrub(); }
 		if (!violated && nref) viol("C08:not-executed", "%d item(s) of the set never ran within 30 frames", nref);
 		ncases++;
 	}
-	fprintf(res, "{\"setsweep_cases\": %lu, \"setsweep_skipped_beyond_depth\": %lu, \"set_calls_nonfirst_frame_on_slot24\": %lu, \"set_calls_wrapping_ring\": %lu, %s, \"violations\": %lu}\n",
-		ncases, nskipped, n_set_nonfirst_slot24, n_set_wrapping, hist_json(), nviol);
+	i = report_unconfirmed();
+	fprintf(res, "{\"setsweep_cases\": %lu, \"setsweep_skipped_beyond_depth\": %lu, \"set_calls_nonfirst_frame_on_slot24\": %lu, \"set_calls_wrapping_ring\": %lu, \"history_dependent_keys\": %d, \"verify_requests\": %lu, %s, \"violations\": %lu}\n",
+		ncases, nskipped, n_set_nonfirst_slot24, n_set_wrapping, i, n_verify, hist_json(), nviol);
 	return nviol ? 1 : 0;
+}
+
+/* ------------------------------------------------------------------ one case, alone */
+/* executes exactly one case from the boot state in this process: what the pristine verifier does per
+ * request and what `drv_c08 case <token> [K]` does for the Python side's replay */
+static void run_case_token(const char *tok, int k)
+{
+	int a, b, c; unsigned long idx;
+	if (sscanf(tok, "capacity:%d:%d:%d", &a, &b, &c) == 3) capacity_case(a, b, c);
+	else if (sscanf(tok, "order:%d:%lu", &a, &idx) == 2) order_case(a, idx);
+	else if (replay_events(tok, k) < 0) { if (in_child) _exit(3); fprintf(res, "{\"harness_error\": \"bad event list %s\"}\n", tok); fflush(res); exit(3); }
 }
 
 int main(int argc, char **argv)
@@ -837,8 +1039,15 @@ int main(int argc, char **argv)
 	init_template();
 	build_sets();
 	if (argc < 2) return 2;
+	if (!strcmp(argv[1], "case") && argc >= 3) {
+		verify_enabled = 0;          /* this process is fresh by construction */
+		run_case_token(argv[2], argc >= 4 ? atoi(argv[3]) : 0);
+		fprintf(res, "{\"case\": 1, \"violations\": %lu}\n", nviol);
+		return nviol ? 1 : 0;
+	}
+	verify_enabled = 1;
+	verifier_start();                /* before any code under test has run in this process */
 	if (!strcmp(argv[1], "bfs")) return do_bfs(argc, argv);
-	if (!strcmp(argv[1], "replay") && argc >= 3) return do_replay(argv[2], argc >= 4 ? atoi(argv[3]) : 0);
 	if (!strcmp(argv[1], "setsweep") && argc >= 4) return do_setsweep(atoi(argv[2]), atoi(argv[3]));
 	if (!strcmp(argv[1], "capacity") && argc >= 4) return do_capacity(atoi(argv[2]), atoi(argv[3]));
 	if (!strcmp(argv[1], "order") && argc >= 5) return do_order(atoi(argv[2]), strtoul(argv[3], 0, 0), strtoul(argv[4], 0, 0));
